@@ -112,21 +112,68 @@ def updateContacts : M Unit := do
     modAcc fun a => { a with contactsInSync := true, caContactsOk := true }
     saveAccount
   | .acmeErr .accountDoesNotExist => register
+  | .lost => do
+    -- GHOST only: the CA has the contacts, the client was not told
+    modAcc fun a => { a with caContactsOk := true }
+    failAt .accountUpdate
   | _ => failAt .accountUpdate
 
-/-- `update_account_key` (`acme_proto/account.rs:111-154`): the outer JWS is signed by the past key
-whose hash the endpoint record carries (`get_past_key(&ep.key_hash)`, fails when not found), `kid` =
-account URL; the inner object carries the new key as `jwk`. -/
-def updateKey : M Unit := do
+/-- POST-as-GET of the account URL signed by the CURRENT key (`set_data_builder_sync!(account,
+endpoint_name, b"")`, `kid` = account URL; `acme_proto/account.rs:152-161`).  2xx ⇒ the CA already
+holds the current key: the roll-over is recorded as done (`update_key_hash`, save).  Anything else ⇒
+the error that led here is returned.  GHOST: a 2xx answer means the CA verified a signature of the
+current key for this account. -/
+def checkNewKey : M Unit := do
   let w ← getW
-  if w.acc.pastKeyKnown then do
-    let r ← exchange .keyChange w.acc.recKey
-    match r with
-    | .ok _ => do
-      modAcc fun a => { a with recKey := a.curKey, caKey := a.curKey }
-      saveAccount
-    | .acmeErr .accountDoesNotExist => register
-    | _ => failAt .keyChange
+  let p ← exchange .accountProbe w.acc.curKey
+  match p with
+  | .ok _ => do
+    modAcc fun a => { a with recKey := a.curKey, caKey := a.curKey }
+    saveAccount
+  | _ => failAt .keyChange
+
+/-- The roll-over request and what follows (`acme_proto/account.rs:164-184`): the outer JWS is signed
+by the past key whose hash the endpoint record carries, `kid` = account URL; the inner object
+carries the new key as `jwk`.  `checkAfter` (5ce05e3 only): an ACME error other than
+accountDoesNotExist (of either class) is followed by `checkNewKey`.  GHOST: `lost` = the CA processed the roll-over
+and holds the new key, the client saw a cut connection. -/
+def keyChangeStep (checkAfter : Bool) : M Unit := do
+  let w ← getW
+  let r ← exchange .keyChange w.acc.recKey
+  match r with
+  | .ok _ => do
+    modAcc fun a => { a with recKey := a.curKey, caKey := a.curKey }
+    saveAccount
+  | .acmeErr .accountDoesNotExist => register
+  | .acmeErr _ => if checkAfter then checkNewKey else failAt .keyChange
+  | .lost => do
+    modAcc fun a => { a with caKey := a.curKey }
+    failAt .keyChange
+  | .otherErr => failAt .keyChange
+
+/-- Since 1fb1c1a / d9d2cda (`acme_proto/account.rs:136-172`): first a POST-as-GET of the account URL
+signed by the RECORDED key (`kid` = account URL).  2xx ⇒ the CA holds that key: the roll-over request.
+accountDoesNotExist ⇒ falls through to the roll-over request too (which re-registers when it gets
+the same answer).  An ACME error a failed signature verification produces (`sigRefused`) ⇒
+`checkNewKey`.  Any other ACME error, a transport error ⇒ returned. -/
+def keyChangeChecked : M Unit := do
+  let w ← getW
+  let p ← exchange .accountProbe w.acc.recKey
+  match p with
+  | .ok _ => keyChangeStep false
+  | .acmeErr .accountDoesNotExist => keyChangeStep false
+  | .acmeErr .sigRefused => checkNewKey
+  | _ => failAt .keyChange
+
+/-- `update_account_key` (`acme_proto/account.rs:111-190`): `get_past_key(&ep.key_hash)` fails when
+the recorded key is not among the past keys; then the roll-over in the way of the tree modelled. -/
+def updateKey (v : Variant) : M Unit := do
+  let w ← getW
+  if w.acc.pastKeyKnown then
+    match v.rolloverCheck with
+    | .first => keyChangeChecked
+    | .afterRefusal => keyChangeStep true
+    | .none => keyChangeStep false
   else failAt .pastKey
 
 /-- `Account::synchronize` (`account.rs:205-243`).  `contacts_changed` and `key_changed` are both
@@ -138,11 +185,11 @@ def synchronize (v : Variant) : M Unit := do
   if w.acc.hasUrl then
     if w.acc.bindingInSync then
       if v.keyFirst then do
-        (if !w.acc.keyInSync then updateKey else pure ())
+        (if !w.acc.keyInSync then updateKey v else pure ())
         (if !w.acc.contactsInSync then updateContacts else pure ())
       else do
         (if !w.acc.contactsInSync then updateContacts else pure ())
-        (if !w.acc.keyInSync then updateKey else pure ())
+        (if !w.acc.keyInSync then updateKey v else pure ())
     else do
       register
       (if v.bindingThenContacts && (!w.acc.contactsInSync && w.acc.keyInSync) then updateContacts
